@@ -1175,3 +1175,34 @@ func init() {
 	Drivers["encode-reuse"] = driveEncodeReuse
 	Drivers["long-lists"] = driveLongLists
 }
+
+// Registry x frames: a checksummed frame encoded while its service is removed from the registry
+// keeps the caller's checksum; after the service is registered again it is computed as usual.
+func driveRegistryFrames(c *DriverCtx) error {
+	for _, ft := range c.types() {
+		alg := checksumAlgOf(ft)
+		if alg == "" {
+			continue
+		}
+		for i := 0; i < c.N; i++ {
+			c.G.Small = true
+			v := c.G.Value(ft, Canon)
+			c.G.Small = false
+			ops := []Op{{Op: "new", O: "m", V: v}, {Op: "copy", O: "m2", From: "m"},
+				{Op: "regremove", Alg: alg},
+				{Op: "encode", B: "b", O: "m", Tag: "service-removed"},
+				{Op: "decode", B: "b", O: "r", T: ft, Fresh: true},
+				{Op: "encode", B: "b2", O: "r", Tag: "reencode-service-removed"},
+				{Op: "regrestore", Alg: alg},
+				{Op: "encode", B: "b3", O: "m2", Tag: "service-restored"},
+				{Op: "decode", B: "b3", O: "r3", T: ft, Fresh: true},
+			}
+			if err := c.Run(ops); err != nil {
+				return err
+			}
+		}
+	}
+	return nil
+}
+
+func init() { Drivers["registry-frames"] = driveRegistryFrames }
